@@ -49,7 +49,7 @@ def prim_term(top, ch):
     if cls in UN: return '%s %s %s' % (UN[cls], n(ch.r), n(ch.a))
     if cls in MBIN: return '%s %s %s %s' % (MBIN[cls], n(ch.r), n(ch.a), n(ch.b))
     if cls in MNARY: return '%s %s [%s]' % (MNARY[cls], n(ch.r), '; '.join(n(x) for x in ch.ins))
-    if cls == 'EqualConstant': return 'PEqualConst %s %s %s' % (n(ch.r), n(ch.a), zlit(ch.v))
+    if cls == 'EqualConstant': return 'PEqualConst %s %s %s' % (n(ch.r), n(ch.a), zlit(ch.v & ((1 << ch.a.getWidth()) - 1)))   # the repaired emitter prints the masked constant
     if cls == 'AddCarryIn': return 'PAddCI %s %s %s %s' % (n(ch.r), n(ch.a), n(ch.b), n(ch.ci))
     if cls == 'ShiftLeftConstant': return 'PShl %s %s %s' % (n(ch.r), n(ch.a), zlit(ch.getParameterValue('n')))
     if cls == 'ShiftRightConstant': return 'PShr %s %s %s' % (n(ch.r), n(ch.a), zlit(ch.getParameterValue('n')))
